@@ -1,7 +1,9 @@
 // impl-entry: implementation side of the C10 coverage-audit families (area "entry"):
-//   entrymut  exported []byte/string entry points of package pgdump that no other mutation family calls directly
-//   filewrap  path-taking wrappers (Read*/Extract*/Scan*/Verify*DataDir/...) fed damaged files on disk and compared
-//             with the byte-level parser they wrap, called on the same bytes
+//
+//	entrymut  exported []byte/string entry points of package pgdump that no other mutation family calls directly
+//	filewrap  path-taking wrappers (Read*/Extract*/Scan*/Verify*DataDir/...) fed damaged files on disk and compared
+//	          with the byte-level parser they wrap, called on the same bytes
+//
 // See /verif/C10_COVERAGE.md.
 package main
 
